@@ -95,6 +95,30 @@ def doc_strategy():
     )
 
 
+_SYL = ["ka", "lo", "mi", "ren", "tov", "zen", "qua", "dri", "fel", "gor"]
+
+
+def _nm(i):
+    return (_SYL[i % 10] + _SYL[(i // 10) % 10] + _SYL[(i // 100) % 10] + "x").capitalize()
+
+
+@st.composite
+def _long_list(draw):
+    """A long opinion: two early cases, each followed by an id. with a pin cite; well over a hundred other cases, each
+    cited once and followed by its own id.; then the early cases again, followed by id. with pin cites that share their
+    digits with the early ones but not their meaning (a range against a page number, a paragraph against a page)."""
+    pins = st.sampled_from(["at 5-12", "at 512", "at 10", "at \u00b6 10", "at 1-50", "at 150", "at 15-0", "at 1, 5", "at 15", "at *10", "at 51-2"])
+    early = ["Kalomix v. Rentovix, 1 U.S. 1 (1999).", "Zenquax v. Drifelix, 2 U.S. 5 (1999)."]
+    parts = [f"{e} Id. {draw(pins)}." for e in early]
+    n = draw(st.integers(125, 150))
+    off = draw(st.integers(0, 500))
+    for i in range(n):
+        parts.append(f"{_nm(off + i)} v. {_nm(off + i + 500)}, {10 + i} F.2d {100 + i} (1980). Id. at {100 + i + draw(st.integers(0, 2))}.")
+    for _ in range(draw(st.integers(1, 4))):
+        parts.append(f"{draw(st.sampled_from(early))} Id. {draw(pins)}.")
+    return {"text": " ".join(parts)}
+
+
 def phases(tier, n_docs_quick=4000, n_docs_thorough=200000):
     L = seq_level(tier)
     n = len(alphabet.LETTERS)
@@ -102,6 +126,7 @@ def phases(tier, n_docs_quick=4000, n_docs_thorough=200000):
     for l in range(1, L + 1) if L <= 4 else [L]:
         out.append(Phase(f"alphabet-len{l}", "enum", items=(lambda l=l: Seqs(l, n)), exhaustive=True, distinct=True))
     out.append(Phase("extracted-lists", "gen", strategy=doc_strategy, n=n_docs_quick if tier == "quick" else n_docs_thorough))
+    out.append(Phase("long-lists", "gen", strategy=_long_list, n=48 if tier == "quick" else 1600))
     return out
 
 
